@@ -62,6 +62,20 @@ class CScal:
     def __neg__(self):
         return CScal(-self.re, -self.im)
 
+    def __truediv__(self, o):
+        if is_reallike(o):
+            return CScal(self.re / o, self.im / o)
+        o = CScal.lift(o)
+        d = o.re * o.re + o.im * o.im
+        n = self * o.conjugate()
+        return CScal(n.re / d, n.im / d)
+
+    def __rtruediv__(self, o):
+        return CScal.lift(o) / self
+
+    def __abs__(self):
+        return ssqrt(self.re * self.re + self.im * self.im)
+
     def conjugate(self):
         return CScal(self.re, -self.im)
 
@@ -379,6 +393,7 @@ class IArr:
         raise OutOfReach(f"index of type {type(i).__name__}")
 
     def _norm_slice(self, s, dim):
+        """numpy slice semantics incl. clipping: returns (start, length)."""
         if s.step not in (None, 1):
             raise OutOfReach("slice step")
         lo = 0 if s.start is None else s.start
@@ -387,17 +402,22 @@ class IArr:
             lo = dim + lo
         if isinstance(hi, int) and hi < 0:
             hi = dim + hi
-        # numpy clips slices; we require them to be within range (obligation) to keep the model exact
-        c = sand(lo >= 0, lo <= hi, hi <= dim)
-        if c is False:
-            # clipping semantics for concrete cases
-            if all(isinstance(v, int) for v in (lo, hi, dim)):
-                lo2, hi2 = max(0, min(lo, dim)), max(0, min(hi, dim))
-                return lo2, max(hi2 - lo2, 0)
-            cur().require("slice.range", False, f"0 <= {lo} <= {hi} <= {dim}")
-        elif c is not True:
-            cur().require("slice.range", c, f"0 <= {lo} <= {hi} <= {dim}")
-        return lo, hi - lo
+        if all(isinstance(v, int) for v in (lo, hi, dim)):
+            lo2, hi2 = max(0, min(lo, dim)), max(0, min(hi, dim))
+            return lo2, max(hi2 - lo2, 0)
+        if s.start is None and s.stop is None:
+            return 0, dim
+        inside = sand(lo >= 0, lo <= hi, hi <= dim)
+        if inside is True or cur().valid(inside) is True:
+            return lo, hi - lo
+        # negative symbolic bounds would wrap in numpy: require non-negative, then clip at dim
+        c = sand(lo >= 0, hi >= 0)
+        if c is not True:
+            cur().require("slice.nonnegative", c, f"slice bounds {lo}:{hi} are non-negative")
+        lo = sym.smin(lo, dim)
+        hi = sym.smin(hi, dim)
+        ln = sym.smax(hi - lo, 0)
+        return lo, ln
 
     def _index(self, idx):
         """Apply a basic index; returns ('scalar', vidx) or ('view', IArr)."""
@@ -490,7 +510,9 @@ class IArr:
                     conds.append(idx[a] == ax[1])
                 elif ax[0] == "rng":
                     vi = idx[a] - ax[1]
-                    conds.append(sand(vi >= 0, vi < tv.vshape[ax[2]]))
+                    whole = isinstance(ax[1], int) and ax[1] == 0 and _same_dim(tv.vshape[ax[2]], st.shape[a])
+                    if not whole:      # a whole axis needs no condition: indices are in range by precondition
+                        conds.append(sand(vi >= 0, vi < tv.vshape[ax[2]]))
                     vidx[ax[2]] = vi
                 else:
                     comp = idx[a]
